@@ -37,7 +37,7 @@ ASSUMPTIONS = [
     'symbol tables are generated without STT_GNU_IFUNC / STB_GNU_UNIQUE and notes without annobin/stapsdt owners: the clone\'s '
     'description tables have no entries for them',
 ]
-KINDS = {'corpus': (288, 864, 0), 'compiled': (18, 52, 1), 'descr': (60, 60, 2), 'dwdescr': (40, 40, 1), 'generated': (120, 1500, 4)}
+KINDS = {'corpus': (288, 864, 0), 'compiled': (20, 44, 1), 'descr': (60, 60, 2), 'dwdescr': (40, 40, 1), 'generated': (120, 1500, 4)}
 FLOOR = {'quick': 150, 'thorough': 600}
 CASE_TIMEOUT = 1200
 OPTIONS = ['-e', '-d', '-s', '-n', '-r', '-x.text', '-p.shstrtab', '-V', '--debug-dump=info', '--debug-dump=decodedline',
@@ -214,6 +214,11 @@ def judge(sh, what, path, option, ident, kind):
         sh.count('pairs_equal')
         sh.sample({'file': ident, 'option': option, 'lines': n[0]}, kind=kind)
         return
+    ml = msg.splitlines()
+    if res == 'diff' and option in ('--debug-dump=loc', '--debug-dump=Ranges') and len(ml) > 2 and '(base address)' in ml[1] and \
+            'ffffffff' in ml[1] and '(base address)' in ml[2]:
+        sh.skip('oracle age: readelf 2.40 prints base-address selection entries as "offset ffffffff base", 2.41 (and the clone) as "offset base"')
+        return
     if gap_matches(kind, '%s %s' % (ident, option), msg):
         sh.count('pairs_unjudged_oracle_gap')
         sh.skip('oracle gap (oracle_gaps_C18.json)')
@@ -231,12 +236,26 @@ COMPILED_OPTS = ['-e', '-s', '-r', '-n', '--debug-dump=info', '--debug-dump=deco
                  '--debug-dump=frames-interp', '--debug-dump=aranges', '--debug-dump=loc', '--debug-dump=Ranges', '--debug-dump=pubnames']
 
 
+OTHER_CFG = [('g++', 'c.cpp', ['-gdwarf-%d' % v, o, '-fPIC', '-c'], 'g++-dwarf%d%s.o' % (v, o)) for v in (4, 5) for o in ('-O0', '-O2')] + \
+    [('clang++', 'c.cpp', ['-gdwarf-4', '-O1', '-c'], 'clang++-dwarf4.o'),
+     ('gfortran', 'd.f90', ['-gdwarf-4', '-O0', '-c'], 'gfortran-dwarf4.o'), ('gfortran', 'd.f90', ['-gdwarf-5', '-O1', '-c'], 'gfortran-dwarf5.o'),
+     ('rustc', 'e.rs', ['-g', '--emit=obj'], 'rustc.o')]
+
+
 def run_compiled(idx, rng, sh):
     src = [os.path.join(VERIF_DIR, 'corpus', 'src', f) for f in ('a.c', 'b.c')]
-    cfgs = [('gcc',) + c for c in GCC_CFG] + [('clang',) + c for c in CLANG_CFG]
+    cfgs = [('gcc',) + c for c in GCC_CFG] + [('clang',) + c for c in CLANG_CFG] + [('other',) + c for c in OTHER_CFG]
     cfg = cfgs[(idx + (sh.seed if sh.tier == 'quick' else 0)) % len(cfgs)]
     with oracles.Scratch() as s:
-        if cfg[0] == 'gcc':
+        ver = 0
+        if cfg[0] == 'other':
+            _, tool, srcname, flags, ident = cfg
+            out = os.path.join(s.d, ident)
+            cmd = [tool] + flags + ['-o', out, os.path.join(VERIF_DIR, 'corpus', 'src', srcname)]
+            if tool == 'gfortran':
+                cmd += ['-J', s.d]
+            regs = True
+        elif cfg[0] == 'gcc':
             _, ver, opt, kind = cfg
             out = os.path.join(s.d, 'g%d%s.%s' % (ver, opt, kind))
             cmd = ['gcc', '-gdwarf-%d' % ver, opt, '-fPIC']
